@@ -407,13 +407,11 @@ def inv(a):
     if a.shape != (n, n) or n > 3:
         raise Unsupported("inverse of %s array" % (a.shape,))
     if INV_MODE[0] == "atoms" and n == 3:
-        key = tuple(vn.canon(a[i, j]) for i in range(3) for j in range(3))
-        symmetric = all(key[3 * i + j] == key[3 * j + i] for i in range(3) for j in range(3))
+        rows, key = vn.inv3x3_atoms([[R(a[i, j]) for j in range(3)] for i in range(3)])
         out = np.empty((3, 3), dtype=object)
         for i in range(3):
             for j in range(3):
-                ii, jj = (min(i, j), max(i, j)) if symmetric else (i, j)   # the inverse of a symmetric matrix is symmetric
-                out[i, j] = vn.atom(("inv3x3", ii, jj, key))
+                out[i, j] = rows[i][j]
         return out
     d = det(a)
     if vn.is_zero(d):
@@ -948,6 +946,8 @@ class Interp(object):
                         if any(_dotted(d) == "property" for d in n.decorator_list):
                             return self.call_fn(cm, n, [base], {})
                         return ("bound", cm, n, base)
+                    if isinstance(n, ast.Assign) and any(isinstance(t, ast.Name) and t.id == a for t in n.targets):
+                        return self.expr(cm, n.value, {})     # class-level constant
             raise Unsupported("attribute %s of object" % a)
         if isinstance(base, dict):
             return ("method", base, a)
